@@ -33,12 +33,13 @@ INDEX_THOROUGH = ['k_index_bijection_5', 'k_index_bijection_3x1', 'k_index_bijec
 DECODERS = ['k_npy_decode_f4', 'k_npy_decode_f8', 'k_npy_decode_i1', 'k_npy_decode_i2', 'k_npy_decode_i4', 'k_npy_decode_i8',
             'k_npy_decode_u1', 'k_npy_decode_u2', 'k_npy_decode_u4', 'k_npy_decode_u8']
 FOLD_QUICK = ['k_fold_5', 'k_fold_2x4', 'k_fold_1x3']
-FOLD_THOROUGH = ['k_fold_1', 'k_fold_4', 'k_fold_3x4', 'k_fold_3x3', 'k_fold_2x3x2', 'k_fold_2x2x2', 'k_fold_3x1x2x2']
+FOLD_THOROUGH = ['k_fold_1', 'k_fold_4', 'k_fold_3x4', 'k_fold_3x3', 'k_fold_2x3x2', 'k_fold_2x2x2', 'k_fold_3x1x1x2']
 SITE_NOPROJ = ['k_site_noproj_abn_c0', 'k_site_noproj_abn_c2', 'k_site_noproj_aab_c1', 'k_site_noproj_aab_c2', 'k_site_noproj_baa_c0', 'k_site_noproj_nba_c1']
 SITE_PROJDEC = ['k_site_projdec_aab_c0_to22', 'k_site_projdec_aab_c2_to42', 'k_site_projdec_aab_c1_to20', 'k_site_projdec_baa_c1_to02', 'k_site_projdec_nba_c0_to22']
 SITE_PROJVAL = ['k_site_projval_aab_to21', 'k_site_projval_baa_to12', 'k_site_projval_aab_to02']
-STAT_TOTAL = ['k_stat_total_1d_1', 'k_stat_total_1d_2', 'k_stat_total_1d_3', 'k_stat_total_1d_4', 'k_stat_total_2d_1xn',
-              'k_stat_total_2d_2xn', 'k_stat_total_2d_3xn', 'k_stat_total_3d', 'k_stat_total_4d']
+STAT_TOTAL = ['k_stat_total_1d_0', 'k_stat_total_2d_0x2', 'k_stat_total_1d_1', 'k_stat_total_1d_2', 'k_stat_total_1d_3', 'k_stat_total_1d_4', 'k_stat_total_2d_1x1', 'k_stat_total_2d_1x3',
+              'k_stat_total_2d_2x1', 'k_stat_total_2d_2x2', 'k_stat_total_2d_3x3', 'k_stat_total_3d_1x1x1', 'k_stat_total_3d_2x1x2',
+              'k_stat_total_4d_1x1x1x1', 'k_stat_total_4d_2x1x1x2']
 
 
 def meta_for(names, kind, bound, functions):
@@ -63,7 +64,9 @@ KANI_META.update({
     'k_npy_read_header_len': K('complete', 'none: all [u8;4]; short inputs of 1 and 3 bytes', ['Version::read_header_len']),
     'k_npy_decode_partial_value_is_error': K('bounded', 'streams of 3 and 6 bytes (f4 values), contents symbolic', ['TypeDescriptor::read']),
     'k_npy_header_write_short_writes': K('bounded', 'header of shape (3,) through sinks accepting 1, 3, 7 bytes per call (HeaderDict Display stubbed by its text)', ['Header::write', 'Version::write_header_len']),
-    'k_npy_header_write_failing_sink': K('bounded', 'sink failing at offsets 0, 5, 7, 9, 11, 70, 127', ['Header::write']),
+    'k_npy_header_write_failing_sink': K('bounded', 'sink failing at offsets 9 and 70', ['Header::write']),
+    'k_npy_write_array_values_bit_exact': K('complete', 'shape (2,), both values over all 2^64 bit patterns (HeaderDict Display stubbed by its text)', ['npy::write_array', 'Header::write', 'Array::iter']),
+    'k_fold_empty': K('bounded', 'shapes [0] and [2,0]', ['Spectrum::fold', 'Folded::from_spectrum']),
     'k_npy_f64_le_roundtrip': K('complete', 'none: all 2^64 bit patterns', ['f64::to_le_bytes', 'f64::from_le_bytes']),
     'k_detect_spectrum_format': K('complete', 'every byte string of length 0..=8', ['spectrum::io::Format::detect', 'detect_npy', 'detect_plain_text']),
     'k_detect_genotype_stream': K('complete', 'every stream of 0..=6 bytes, first fill_buf chunk of 3..=6 bytes (shorter first chunks: known finding F14)', ['CompressionMethod::detect', 'genotype::reader::builder::Format::detect (uncompressed branch)']),
@@ -143,7 +146,7 @@ REGISTRY = {
         'title': 'folding is mass-preserving, idempotent and symmetric under allele polarity',
         'level': 'proof',
         'verus': ['v_indexsum'],
-        'verus_pairs': {'v_indexsum': ['k_fold_2x4', 'k_fold_3x1x2x2']},
+        'verus_pairs': {'v_indexsum': ['k_fold_2x4', 'k_fold_3x1x1x2']},
         'kani_quick': FOLD_QUICK,
         'kani_thorough': FOLD_THOROUGH,
         'assumptions': [A_FLOATSUM, A_BIN, 'Shape::elements (iterator product) is assumed in V-indexsum and checked by K-index on concrete shapes',
@@ -162,7 +165,8 @@ REGISTRY = {
         'title': 'spectrum files round-trip through text and npy; the tool reads what it writes',
         'level': 'proof',
         'verus': ['v_npyhdr'],
-        'kani_quick': ['k_npy_f64_le_roundtrip', 'k_npy_decode_f8', 'k_detect_spectrum_format'],
+        'verus_pairs': {'v_npyhdr': ['k_npy_write_array_values_bit_exact']},
+        'kani_quick': ['k_npy_f64_le_roundtrip', 'k_npy_decode_f8', 'k_npy_write_array_values_bit_exact', 'k_detect_spectrum_format'],
         'kani_thorough': [],
         'assumptions': ['claimed for the npy value path only: writer emits the values in data order as 8 little-endian bytes (V-npyhdr), f64 LE encode/decode is the identity on all bit patterns and the f8 decoder returns the decoded chunk (Kani)',
                         'HeaderDict Display text and the nom header parser are not verified (string formatting / parsing in std and nom)'],
@@ -207,7 +211,8 @@ REGISTRY = {
         'title': 'npy output conforms to NPY 1.0; every supported numpy dtype is read exactly',
         'level': 'proof',
         'verus': ['v_npyhdr'],
-        'kani_quick': ['k_npy_write_header_len', 'k_npy_version_bytes', 'k_npy_read_header_len'] + DECODERS,
+        'verus_pairs': {'v_npyhdr': ['k_npy_write_array_values_bit_exact', 'k_npy_header_write_short_writes']},
+        'kani_quick': ['k_npy_write_header_len', 'k_npy_version_bytes', 'k_npy_read_header_len', 'k_npy_write_array_values_bit_exact'] + DECODERS,
         'kani_thorough': [],
         'assumptions': ['io::Write::write_all contract (std documentation) is assumed in V-npyhdr', 'HeaderDict Display text is an uninterpreted function of (descr, fortran_order, shape) in V-npyhdr; its literal form and the nom parser are not verified',
                         'dictionary text shorter than 65000 bytes (shape with at most 1000 axes)'],
@@ -227,7 +232,7 @@ REGISTRY = {
         'level': 'model_checking',
         'verus': ['v_axis', 'v_view', 'v_axisiter', 'v_npyhdr', 'v_indexsum', 'v_projiter'],
         'kani_quick': ['k_detect_spectrum_format', 'k_marg_errors', 'k_proj_validation_2d', 'k_stat_total_1d_1', 'k_stat_total_1d_2', 'k_stat_total_1d_3'],
-        'kani_thorough': STAT_TOTAL,
+        'kani_thorough': STAT_TOTAL + ['k_fold_empty'],
         'assumptions': [A_BIN, A_NOODLES, 'panic-freedom (overflow, bounds, unwrap/expect, division) is an obligation of every function under contract in the Verus units and of every Kani harness; it is claimed for those functions under their stated preconditions only'],
         'not_decided': ['totality of the process over arbitrary bytes (noodles, flate2, nom, clap)', "main's mapping of Err to exit status 1", 'sample::Map::shape unwrap on contradictory sample lists'],
     },
